@@ -779,6 +779,36 @@ pub fn run_workers(prop: &str, tier: Tier, n: usize) -> Vec<Value> {
     out
 }
 
+/// Runs one section of a property in a child process (`<prop> <tier> --worker 0 1`, environment
+/// `VERIF_SECTION=<section>`), because what it feeds the code under test can kill a process in ways
+/// `catch_unwind` cannot intercept (stack overflow, abort on allocation failure). The child prints
+/// `SECTION_CASE <label>` before each case and `WORKER_RESULT <json>` at the end. Returns the
+/// child's result, or Err((last case label, how the child died)).
+pub fn run_isolated(prop: &str, tier: Tier, section: &str, extra_env: &[(&str, String)]) -> Result<Value, (String, String)> {
+    let exe = std::env::current_exe().unwrap_or_else(|e| machinery(&format!("current_exe: {e}")));
+    let mut cmd = std::process::Command::new(&exe);
+    cmd.args([prop, tier.name(), "--worker", "0", "1"]).env("VERIF_SECTION", section).stdout(std::process::Stdio::piped()).stderr(std::process::Stdio::piped());
+    for (k, v) in extra_env {
+        cmd.env(k, v);
+    }
+    let o = cmd.output().unwrap_or_else(|e| machinery(&format!("spawn isolated section: {e}")));
+    let text = String::from_utf8_lossy(&o.stdout).to_string();
+    if let Some(v) = text.lines().find_map(|l| l.strip_prefix("WORKER_RESULT ")).and_then(|l| serde_json::from_str::<Value>(l).ok()) {
+        if o.status.success() {
+            return Ok(v);
+        }
+    }
+    let last = text.lines().rev().find_map(|l| l.strip_prefix("SECTION_CASE ")).unwrap_or("<before the first case>").to_string();
+    use std::os::unix::process::ExitStatusExt;
+    let how = match (o.status.signal(), o.status.code()) {
+        (Some(s), _) => format!("killed by signal {s}"),
+        (_, Some(c)) => format!("exit status {c}"),
+        _ => "unknown termination".to_string(),
+    };
+    let err_tail: String = String::from_utf8_lossy(&o.stderr).lines().rev().take(3).collect::<Vec<_>>().into_iter().rev().collect::<Vec<_>>().join(" | ");
+    Err((last, format!("{how}; stderr: {}", err_tail.chars().take(300).collect::<String>())))
+}
+
 /// History dimension: runs `f(word)` for every word over `0..k` of length 1..=depth. Every word runs
 /// on a FRESH OS thread (clean thread-locals) and its operations run back-to-back on that thread,
 /// so state leaking from one call into the next (caches, scratch buffers, statics keyed by thread)
